@@ -127,25 +127,26 @@ theorem fromState_sorted_perm (H : Hasher) (depth : Nat) {π π' : List Nat} (s 
 
 /-! ## what the digest looks at -/
 
-/-- a value stream starts with the outer time (true of `pinnedStream` and `canonicalStream`):
-    `KeyDigest.timestamp` is then a function of the stream -/
-def StreamOK (vs : ValueStream) : Prop := ∀ v : RV, (vs v).headD 0 = v.ts.time
+/-- the outer time can be read off the value stream (`pinnedStream` and `canonicalStream` start
+    with it, `byteStream` with its 8 little-endian bytes): `KeyDigest.timestamp` is then a function
+    of the stream -/
+def StreamOK (vs : ValueStream) : Prop := ∃ tsOf : List Nat → Nat, ∀ v : RV, tsOf (vs v) = v.ts.time
 
-theorem streamOK_pinned : StreamOK pinnedStream := fun _ => rfl
-theorem streamOK_canonical : StreamOK canonicalStream := fun _ => rfl
+theorem streamOK_pinned : StreamOK pinnedStream := ⟨fun l => l.headD 0, fun _ => rfl⟩
+theorem streamOK_canonical : StreamOK canonicalStream := ⟨fun l => l.headD 0, fun _ => rfl⟩
 
 /-- the projection of a state that the digest is a function of: per key, the value stream -/
 def proj (vs : ValueStream) (s : NMap RV) : NMap (List Nat) := s.map fun p => (p.1, vs p.2)
 
 /-- digest of one projected entry -/
-def kdOf (H : Hasher) (p : Nat × List Nat) : KeyDigest :=
-  { keyHash := H.key p.1, valueHash := H.val p.2, timestamp := p.2.headD 0 }
+def kdOf (H : Hasher) (tsOf : List Nat → Nat) (p : Nat × List Nat) : KeyDigest :=
+  { keyHash := H.key p.1, valueHash := H.val p.2, timestamp := tsOf p.2 }
 
 def projBucket (H : Hasher) (vs : ValueStream) (depth b : Nat) (s : NMap RV) : NMap (List Nat) :=
   (proj vs s).filter fun p => H.key p.1 % 2 ^ depth == b
 
-theorem keyDigest_eq_kdOf (H : Hasher) (hvs : StreamOK vs) (k : Nat) (v : RV) :
-    keyDigest H vs k v = kdOf H (k, vs v) := by
+theorem keyDigest_eq_kdOf (H : Hasher) {tsOf : List Nat → Nat} (hvs : ∀ v : RV, tsOf (vs v) = v.ts.time)
+    (k : Nat) (v : RV) : keyDigest H vs k v = kdOf H tsOf (k, vs v) := by
   simp only [keyDigest, kdOf, hvs v]
 
 theorem wf_proj {s : NMap RV} (h : NMap.WF s) : NMap.WF (proj vs s) := by
@@ -187,13 +188,14 @@ theorem iter_valid_perm {π : List Nat} {s : NMap RV} (hs : NMap.WF s) (hπ : Va
   exact this
 
 /-- the digests pushed into bucket `b`, up to order, are those of the projected bucket -/
-theorem bucketDigests_perm_proj (H : Hasher) (hvs : StreamOK vs) (depth : Nat) {π : List Nat} {s : NMap RV}
+theorem bucketDigests_perm_proj (H : Hasher) {tsOf : List Nat → Nat} (hvs : ∀ v : RV, tsOf (vs v) = v.ts.time)
+    (depth : Nat) {π : List Nat} {s : NMap RV}
     (b : Nat) (hs : NMap.WF s) (hπ : ValidOrder π s) :
-    (bucketDigests H vs depth π s b).Perm ((projBucket H vs depth b s).map (kdOf H)) := by
+    (bucketDigests H vs depth π s b).Perm ((projBucket H vs depth b s).map (kdOf H tsOf)) := by
   unfold bucketDigests projBucket proj
   have h1 := ((iter_valid_perm hs hπ).map (fun p => keyDigest H vs p.1 p.2)).filter (fun d => bucketOf depth d == b)
   refine h1.trans ?_
-  have hk : (fun p : Nat × RV => keyDigest H vs p.1 p.2) = (kdOf H ∘ fun p : Nat × RV => (p.1, vs p.2)) := by
+  have hk : (fun p : Nat × RV => keyDigest H vs p.1 p.2) = (kdOf H tsOf ∘ fun p : Nat × RV => (p.1, vs p.2)) := by
     funext p; exact keyDigest_eq_kdOf H hvs p.1 p.2
   rw [hk]
   simp only [List.filter_map, List.map_map]
@@ -245,8 +247,8 @@ theorem perm_of_map_injective {α β : Type} [DecidableEq α] [DecidableEq β] {
   rw [← h1 l, ← h1 l']
   exact h (g a)
 
-theorem pair_kdOf_injective {H : Hasher} (hI : Ideal H) (x y : Nat × List Nat)
-    (h : ((kdOf H x).keyHash, (kdOf H x).valueHash) = ((kdOf H y).keyHash, (kdOf H y).valueHash)) :
+theorem pair_kdOf_injective {H : Hasher} (hI : Ideal H) (tsOf : List Nat → Nat) (x y : Nat × List Nat)
+    (h : ((kdOf H tsOf x).keyHash, (kdOf H tsOf x).valueHash) = ((kdOf H tsOf y).keyHash, (kdOf H tsOf y).valueHash)) :
     x = y := by
   obtain ⟨k, st⟩ := x
   obtain ⟨k', st'⟩ := y
@@ -294,18 +296,20 @@ theorem projBucket_eq_of_hash_eq {H : Hasher} (hI : Ideal H) (hvs : StreamOK vs)
     (h : (fromDigests H sb (bucketDigests H vs depth π s b)).hash
         = (fromDigests H sb (bucketDigests H vs depth π' t b)).hash) :
     projBucket H vs depth b s = projBucket H vs depth b t := by
+  obtain ⟨tsOf, hvs⟩ := hvs
   have p1 := (bucketDigests_perm_proj H hvs depth b hs hπ).map fun d => (d.keyHash, d.valueHash)
   have p2 := (bucketDigests_perm_proj H hvs depth b ht hπ').map fun d => (d.keyHash, d.valueHash)
   have h2 := p1.symm.trans ((pairs_perm_of_hash_eq hI sb h).trans p2)
   apply nmap_eq_of_perm (wf_projBucket H depth b hs) (wf_projBucket H depth b ht)
   rw [List.map_map, List.map_map] at h2
-  exact perm_of_map_injective (fun a b hab => pair_kdOf_injective hI a b hab) h2
+  exact perm_of_map_injective (fun a b hab => pair_kdOf_injective hI tsOf a b hab) h2
 
 /-- … and conversely equal projected buckets give equal bucket nodes -/
 theorem node_eq_of_projBucket_eq (H : Hasher) (hvs : StreamOK vs) (depth : Nat) {π π' : List Nat}
     {s t : NMap RV} (b : Nat) (hs : NMap.WF s) (ht : NMap.WF t) (hπ : ValidOrder π s)
     (hπ' : ValidOrder π' t) (h : projBucket H vs depth b s = projBucket H vs depth b t) :
     fromDigests H true (bucketDigests H vs depth π s b) = fromDigests H true (bucketDigests H vs depth π' t b) := by
+  obtain ⟨tsOf, hvs⟩ := hvs
   rw [fromDigests_sorted_perm H (bucketDigests_perm_proj H hvs depth b hs hπ),
     fromDigests_sorted_perm H (bucketDigests_perm_proj H hvs depth b ht hπ'), h]
 
